@@ -32,4 +32,21 @@ func init() {
 	calls["evalCriteriaZone"] = func(a []string, n []int) interface{} {
 		return message.VerifEvalTokensZone(n[0], int64(n[1]), a[0], n[2], n[3], n[4], n[5], n[6], n[7], message.VerifParseSearchTokens(a[1]))
 	}
+	// listing with shared stored messages: a = criteria :: one flag string per entry,
+	// n = per entry (message id, uid, y, m, d); sequence numbers are the positions
+	calls["searchListing"] = func(a []string, n []int) interface{} {
+		k := len(a) - 1
+		ids := make([]int64, k)
+		uids := make([]int64, k)
+		dates := make([][3]int, k)
+		for j := 0; j < k; j++ {
+			ids[j], uids[j] = int64(n[5*j]), int64(n[5*j+1])
+			dates[j] = [3]int{n[5*j+2], n[5*j+3], n[5*j+4]}
+		}
+		r := message.VerifEvaluateSearchCriteria(ids, uids, a[1:], dates, a[0])
+		if r == nil {
+			r = []int{}
+		}
+		return r
+	}
 }
